@@ -62,6 +62,16 @@ func VerifH_race() {
 	case 6: // two picks on two picker generations (an RPC that loaded the old picker, another on the new one)
 		verifAssume(len(w.other.scRefs) > 0)
 		a, b = w.pickOp("p1"), w.pickOpOn("p2", w.other)
+	case 7: // a round-robin BIND pick (reads the channel list) and a pick that may grow the pool (appends to it)
+		verifAssume(verifFlag("rr"))
+		n := len(w.gb.scRefList)
+		verifAssume(n >= 1)
+		verifAssume(w.ready(w.gb.scRefList[(w.gb.rrRefId+1)%uint32(n)])) // no waiting
+		ctx := &verifCtx{hasGcp: true, gcp: &gcpContext{}, done: make(chan struct{})}
+		a = func() { w.pk.Pick(balancer.PickInfo{FullMethodName: "/bind", Ctx: ctx}) }
+		ctx2 := &verifCtx{done: make(chan struct{})}
+		b = func() { w.other.Pick(balancer.PickInfo{FullMethodName: "/plain", Ctx: ctx2}) }
+		verifAssume(len(w.other.scRefs) > 0)
 	case 5: // a pick and a resolver update
 		a = w.pickOp("p1")
 		b = func() {
@@ -100,6 +110,12 @@ func VerifH_racegme() {
 		a, b = func() { gme.GCPConfig() }, func() { gme.UpdateMultiEndpoints(upd) }
 	case 4:
 		a, b = rpc, rpc
+	case 5:
+		a, b = func() { gme.Close() }, func() { gme.UpdateMultiEndpoints(upd) }
+	case 6:
+		a, b = func() { vRoute(gme, "nosuch", true) }, func() { gme.UpdateMultiEndpoints(upd) }
+	case 7:
+		a, b = func() { gme.Close() }, rpc
 	}
 	verifReach("before")
 	verifPar(a, b)
